@@ -9,7 +9,7 @@
 
    One side condition on the recipe: no Cond without arms ([nec], Proofs/LatePassTotalReach.v) — the
    constructor Cond() raises TealInputError, [check_expr] models __teal__ only.  It is necessary
-   ([sort_needs_cond_arms] below). *)
+   ([sort_needs_cond_arms] in Proofs/LatePassTotalExamples.v). *)
 From Coq Require Import List Arith NArith String Bool Lia.
 From PV Require Import Base.Bytes AVM.Syntax AVM.Machine Src.Expr Src.Denote Src.WellTyped
   Comp.Blocks Comp.Lower Comp.Passes Comp.GraphSem Comp.LinearSem Comp.SimCheck Comp.Compile
